@@ -167,6 +167,11 @@ def gen_cases(ctx):
     for par in gen.HARD_SHAPES:
         for v in variants:
             cases.append({"variant": v, "par": par, "seed": rng.randrange(10 ** 9), "herm": True, "steps": 2})
+    # histories: step, reset_to_initial_state(), more steps (derived data must be rebuilt for the new state)
+    for par in gen.HARD_SHAPES[:4] + [[-1, 0, 1, 2]]:
+        for v in variants:
+            cases.append({"variant": v, "par": par, "seed": rng.randrange(10 ** 9), "herm": rng.random() < 0.5,
+                          "steps": 3, "reset_after": 1})
     for _ in range(ctx.n(10, 120)):
         for v in variants:
             n = rng.choice([2, 3, 3, 4, 4, 5, 5, 6])
@@ -266,6 +271,10 @@ def _run_impl(ctx, case, rec):
     for step in range(case["steps"]):
         rec.events, rec.problems, rec.contracts = [], [], []
         try:
+            if case.get("reset_after") == step:
+                rec.algo = None          # the reset itself performs no local propagation
+                algo.reset_to_initial_state()
+                rec.algo = algo
             algo.run_one_time_step()
         except Exception as e:      # noqa: BLE001
             rec.algo = None
